@@ -194,7 +194,9 @@ impl BuiltinProp {
         let partner = if partner_kind >= 2 && pres <= 1 && chance(s, 1, 3) { let l = s.draw(2); sc.bind(s, partner, l) } else { partner };
         sc.goals.push(if fun_left { Goal::Unify(f.clone(), partner.clone()) } else { Goal::Unify(partner.clone(), f.clone()) });
         let p = sc.program(vec![]);
-        let style = match pres { 2 => Some(render::CANON), 3 => Some(render::Style { infix_arith: true, ..render::CANON }), _ => None };
+        // (text forms are written with or without a blank after the commas)
+        let tight = chance(s, 1, 3);
+        let style = match pres { 2 => Some(render::Style { tight_commas: tight, ..render::CANON }), 3 => Some(render::Style { infix_arith: true, tight_commas: tight, ..render::CANON }), _ => None };
         if style.is_some() && !program_text_safe(&p) { return CaseResult::Discard("value has no source-text form".into()); }
         let cmp = match run(self.id, &p, style) { Ok(c) => c, Err(r) => return r };
         // bit-exact value check on the result variable
@@ -351,7 +353,8 @@ impl BuiltinProp {
         let tr = mk(s, &mut sc, &r);
         sc.goals.push(Goal::Compare(op, tl, tr));
         let p = sc.program(vec![]);
-        let style = match pres { 1 => Some(render::CANON), 2 => Some(render::Style { infix_compare: true, ..render::CANON }), _ => None };
+        let tight = chance(s, 1, 3);
+        let style = match pres { 1 => Some(render::Style { tight_commas: tight, ..render::CANON }), 2 => Some(render::Style { infix_compare: true, tight_commas: tight, ..render::CANON }), _ => None };
         if style.is_some() && !program_text_safe(&p) { return CaseResult::Discard("operand has no source-text form".into()); }
         let cmp = match run(self.id, &p, style) { Ok(c) => c, Err(r) => return r };
         let n = cmp.run.answers.len();
@@ -382,7 +385,7 @@ impl BuiltinProp {
                 2 => Term::Var(pick(s, &["$X", "$Y", "$Z"]).to_string()),
                 3 => Term::Anon,
                 4 => { let n = s.draw(3) as usize; Term::List((0..n).map(|_| elem(s, depth + 1)).collect(), None) }
-                _ => Term::Cmp("f".into(), vec![elem(s, 2)]),
+                _ => if depth < 5 { Term::Cmp("f".into(), vec![elem(s, depth.max(2) + 1)]) } else { Term::atom("a") },
             }
         }
         let n = sz(s, 6, 41) as usize;
@@ -392,7 +395,9 @@ impl BuiltinProp {
         let tail = if n > 0 && chance(s, 1, 3) { Some(Box::new(if chance(s, 1, 4) { Term::Anon } else { Term::var("$T") })) } else { None };
         let want = Term::List(seq.clone(), tail.clone());
         let case = format!("{}", want);
-        let ids: std::collections::HashMap<String, usize> = [("$X", 1), ("$Y", 2), ("$Z", 3), ("$T", 4), ("$O", 5)].iter().map(|(a, b)| (a.to_string(), *b)).collect();
+        // the parsers reject complex terms longer than 1000 bytes (documented: "String is too long")
+        if case.len() > 800 { return CaseResult::Discard("text longer than the parsers' documented 1000-byte limit".into()); }
+        let ids: std::collections::HashMap<String, usize> = [("$X", 1), ("$Y", 2), ("$Z", 3), ("$T", 4), ("$O", 5), ("$U", 6)].iter().map(|(a, b)| (a.to_string(), *b)).collect();
         let reference = to_engine(&want, &Ids::Zero);
         let builder = s.draw(6);
         rep.class(&format!("builder:{}", ["parse_linked_list", "recreate_variables", "append", "include", "exclude", "make_linked_list"][builder as usize]));
@@ -440,10 +445,19 @@ impl BuiltinProp {
                 if builder == 4 && !want.is_ground() { return CaseResult::Discard("exclude needs a ground list".into()); }
                 // a tail variable is bound (by an earlier unification) to the rest of the sequence: the input is
                 // [e1 .. ek | $T] with $T = [ek+1 .. en], and the result must still be exactly e1 .. en
+                // ... and sometimes the rest is itself written with a second tail variable: [e1..ek | $T], $T = [..em | $U], $U = [..en]
+                let mut second_tail: Option<Term> = None;
                 let (input, bound_tail): (Term, Option<Term>) = if tail.is_some() {
                     let k = 1 + s.draw(n as u32) as usize;
                     rep.class("built-in input with a bound tail variable");
-                    (Term::List(seq[..k].to_vec(), Some(Box::new(Term::var("$T")))), Some(Term::List(seq[k..].to_vec(), None)))
+                    if n - k >= 1 && chance(s, 1, 2) {
+                        let m = k + 1 + s.draw((n - k) as u32) as usize;
+                        rep.class("built-in input with two chained tail variables");
+                        second_tail = Some(Term::List(seq[m..].to_vec(), None));
+                        (Term::List(seq[..k].to_vec(), Some(Box::new(Term::var("$T")))), Some(Term::List(seq[k..m].to_vec(), Some(Box::new(Term::var("$U"))))))
+                    } else {
+                        (Term::List(seq[..k].to_vec(), Some(Box::new(Term::var("$T")))), Some(Term::List(seq[k..].to_vec(), None)))
+                    }
                 } else { (Term::List(seq.clone(), None), None) };
                 let g = match builder {
                     2 if bound_tail.is_some() => Goal::BuiltIn("append".into(), vec![input.clone(), Term::List(vec![], None), Term::var("$O")]),
@@ -453,6 +467,7 @@ impl BuiltinProp {
                 };
                 let eg = goal_to_engine(&g, &Ids::Map(&ids));
                 let tail_binding = bound_tail.as_ref().map(|t| to_engine(t, &Ids::Map(&ids)));
+                let second_binding = second_tail.as_ref().map(|t| to_engine(t, &Ids::Map(&ids)));
                 let r = guarded(1_000_000, || {
                     suiron::start_query();
                     let kb = suiron::KnowledgeBase::new();
@@ -461,6 +476,10 @@ impl BuiltinProp {
                     if let Some(tb) = &tail_binding {
                         let tv = suiron::Unifiable::LogicVar { id: 4, name: "$T".into() };
                         ss0 = tv.unify(tb, &ss0).expect("binding the tail variable");
+                    }
+                    if let Some(sb) = &second_binding {
+                        let uv = suiron::Unifiable::LogicVar { id: 6, name: "$U".into() };
+                        ss0 = uv.unify(sb, &ss0).expect("binding the second tail variable");
                     }
                     let sn = suiron::make_solution_node(std::rc::Rc::new(eg), &kb, ss0, base);
                     suiron::next_solution(sn).map(|ss| ss[5].as_ref().map(|t| (**t).clone()))
